@@ -27,7 +27,7 @@ CASE_TIMEOUT = 60.0
 
 
 def gen_cases(seed, tier):
-    n = 100 if tier == "quick" else 2500
+    n = 100 if tier == "quick" else 10000
     cases = [{"cls": "roundtrip", "seed": seed * 1000 + i, "n": 20, "_w": 1} for i in range(n)]
     cases += [{"cls": "derived", "seed": seed * 1000 + i, "n": 8, "_w": 2} for i in range(n)]
     cases += [{"cls": "fixtures", "seed": seed, "_w": 2}]
